@@ -13,6 +13,7 @@ import (
 	"errors"
 	"runtime"
 	"sort"
+	"strings"
 	"testing/synctest"
 	"time"
 
@@ -26,7 +27,6 @@ type c05D struct {
 	cancels map[int64]context.CancelFunc
 	waiting map[int64]bool
 	drets   [][2]int64
-	base    int
 	ids     []int64
 }
 
@@ -66,24 +66,31 @@ func (h *c05D) observe() {
 	h.s.dsync.mutex.Lock()
 	nAD := int64(len(h.s.dsync.dials))
 	h.s.dsync.mutex.Unlock()
-	h.s.conns.RLock()
-	open := 0
-	for _, c := range h.s.conns.m[h.p] {
-		if !c.conn.IsClosed() {
-			open++
-		}
-	}
-	h.s.conns.RUnlock()
-	// runtime.NumGoroutine still counts a goroutine that has returned from its function
-	// but has not been retired yet; such a goroutine is gone after a yield, a parked one
-	// is not.  Re-sample a few times before reporting a residue.
-	left := int64(runtime.NumGoroutine() - h.base - open)
-	for k := 0; k < 200 && left != 0 && len(h.waiting) == 0; k++ {
-		runtime.Gosched()
-		synctest.Wait()
-		left = int64(runtime.NumGoroutine() - h.base - open)
+	// goroutines of the dialing machinery that are still alive: counted from the stacks of
+	// all goroutines (after synctest.Wait every goroutine of the bubble is parked or gone)
+	left := int64(0)
+	if len(h.waiting) == 0 {
+		left = c05DialGoroutines()
 	}
 	h.line = append(h.line, infFD, infPeer, fdC, actP, nAD, left, int64(len(h.waiting)))
+}
+
+var c05DialFrames = []string{"(*dialWorker).loop", "(*dialLimiter).executeDial", "(*activeDial).dial",
+	"(*Swarm).dialPeer", "(*c05Tpt).DialWithUpdates", "(*Swarm).dialAddr"}
+
+func c05DialGoroutines() int64 {
+	buf := make([]byte, 1<<20)
+	n := runtime.Stack(buf, true)
+	cnt := int64(0)
+	for _, g := range strings.Split(string(buf[:n]), "\n\n") {
+		for _, f := range c05DialFrames {
+			if strings.Contains(g, f) {
+				cnt++
+				break
+			}
+		}
+	}
+	return cnt
 }
 
 func (h *c05D) call(c int64, sim, fdir bool) {
@@ -97,6 +104,13 @@ func (h *c05D) call(c int64, sim, fdir bool) {
 	}
 	h.waiting[c] = true
 	go func() {
+		defer func() {
+			if r := recover(); r != nil {
+				h.mu.Lock()
+				h.drets = append(h.drets, [2]int64{c, 3}) // DialPeer panicked: reported as a wrong result
+				h.mu.Unlock()
+			}
+		}()
 		conn, err := h.s.DialPeer(ctx, h.p)
 		k := int64(1)
 		switch {
@@ -184,7 +198,6 @@ func c05DialPeerRandom(out *verifh.Out, r *verifh.Rand, size int) {
 	}
 	h.s.peers.AddAddrs(h.p, as, time.Hour)
 	synctest.Wait()
-	h.base = runtime.NumGoroutine()
 	// back-off left by earlier dials
 	for _, id := range h.ids {
 		if r.Chance(1, 6) {
